@@ -1,4 +1,4 @@
-// group `wasm_call`: WasmKeeper::{with_storage, call_*, verify_*, contract_storage(_mut), get_env, contract_code}   (C05, C08, C10, C11, C13)
+// group `wasm_registry`: registry records and code tables of WasmKeeper   (C11, C12)
 //@ include prelude/macros.rs
 use vstd::prelude::*;
 use vstd::std_specs::iter::IteratorSpec;
@@ -16,15 +16,9 @@ verus! {
 //@ include prelude/wasm_traits.rs
 //@ include prelude/cw_plus.rs
 //@ include contracts/wasm_types.rs
-//@ include spec/wasm_sem.rs
-//@ include spec/wasm_resp.rs
-//@ include spec/wasm_exec.rs
-//@ include spec/wasm_call.rs
-//@ include_stubs contracts/transactional_only.rs
+//@ include spec/wasm_registry.rs
 //@ include_stubs contracts/prefixed_ns.rs
 //@ include_stubs contracts/prefixed_mod.rs
-//@ include_stubs contracts/wasm_registry.rs
-//@ include_stubs contracts/app_querier.rs
-//@ include contracts/wasm_call.rs
+//@ include contracts/wasm_registry.rs
 } // verus!
 fn main() {}
